@@ -925,6 +925,22 @@ func c3Structured() []c3Fault {
 	})
 	add("signature-over:whole-body", -1, func(rng *rand.Rand, s *world.Spec, q bool) { r, _ := respOf(s, q); r.SignOver = "body" })
 	add("signature-over:other-bytes", -1, func(rng *rand.Rand, s *world.Spec, q bool) { r, _ := respOf(s, q); r.SignOver = "other" })
+	// the genuine signature's hex spelling followed / preceded / interrupted by what is not a whole hex byte (or is one): the
+	// "signature" member is the 128 hex digits of r||s and nothing else
+	for _, mut := range []struct {
+		name string
+		f    func(string) string
+	}{
+		{"genuine+half-byte", func(h string) string { return h + "0" }}, {"genuine+non-hex", func(h string) string { return h + "zz" }},
+		{"genuine+space", func(h string) string { return h + " " }}, {"genuine+newline", func(h string) string { return h + "\n" }},
+		{"space+genuine", func(h string) string { return " " + h }}, {"genuine+whole-byte", func(h string) string { return h + "00" }},
+		{"0x+genuine", func(h string) string { return "0x" + h }}, {"genuine-upper-case", strings.ToUpper},
+		{"genuine-with-a-non-hex-digit-inside", func(h string) string { return h[:64] + "g" + h[65:] }},
+		{"genuine-first-half+non-hex", func(h string) string { return h[:64] + "zz" }},
+	} {
+		mut := mut
+		add("signature-string:"+mut.name, -1, func(rng *rand.Rand, s *world.Spec, q bool) { r, _ := respOf(s, q); r.SigStrMut = mut.f })
+	}
 	for _, v := range []string{"", "0", "zz", strings.Repeat("00", 63), strings.Repeat("00", 65), strings.Repeat("00", 64), strings.Repeat("ff", 64), strings.Repeat("00", 32)} {
 		v := v
 		add("signature-string:malformed", -1, func(rng *rand.Rand, s *world.Spec, q bool) { r, _ := respOf(s, q); r.SigString = &v })
